@@ -316,7 +316,7 @@ def gen_ledger(rng, n=None, crlf=None):
 # ------------------------------------------------------------------------------------------------
 # malformed text
 
-TOKENS = ["0", "1", "9", "12", "1,000", "2024/01/01", "2024-1-1", " ", "  ", "\t", "\n", "\n", "\n  ", "\r\n", "\r", ";", ":", "::", "(", ")",
+TOKENS = ["0", "1", "9", "12", "1,000", "2024/01/01", "2024-1-1", "2024/01/20240115093012", "99999999999999999999", " ", "  ", "\t", "\n", "\n", "\n  ", "\r\n", "\r", ";", ":", "::", "(", ")",
           "((", "@", "@@", "{", "}", "{{", "}}", "[", "]", "=", "*", "!", ",", ".", "-", "+", "/", "account ", "commodity ", "include ",
           "apply tag ", "end apply tag", "alias ", "note ", "format ", "USD", "EUR", "A:B", "Assets:Bank", "é", "日本", "🛒", "​",
           "﻿", "́", "‮", "#", "%", "|", "\"", "'", "\\", "$", "^", "&", "<", ">", "?", "~", "`", "_", "a", "Z"]
@@ -508,6 +508,12 @@ def numeric_cases(rng):
     out.append(("nest-neg", txn("A  (%s1 USD%s)" % ("-(" * MAX_NEST, ")" * MAX_NEST), "B"), True))
     out.append(("long-sum", txn("A  (%s)" % " + ".join(["1 USD"] * 400), "B"), True))
     out.append(("long-prod", txn("A  (1 USD * %s)" % " * ".join(["1"] * 400), "B"), True))
+    # date fields that do not fit a machine integer (transaction date, effective date, lot date)
+    for nm, d in (("day", "2024/01/20240115093012"), ("year", "99999999999999999999/01/01"), ("month", "2024/99999999999/01"),
+                  ("u32", "2024/01/4294967296"), ("i64", "2024-9223372036854775808-01"), ("zeros", "02024/001/0000000000001")):
+        out.append(("date-overflow-" + nm, "%s Shop\n    A  1 USD\n    B\n" % d, True))
+        out.append(("date-overflow-eff-" + nm, "2024/01/01=%s Shop\n    A  1 USD\n    B\n" % d, True))
+        out.append(("date-overflow-lot-" + nm, txn("A  1 ACME {1 USD} [%s]" % d, "B"), True))
     out.append(("many-postings", "2024/01/01 many\n" + "".join("    A%d  1 USD\n" % i for i in range(500)) + "    B\n", True))
     out.append(("many-commodities", "2024/01/01 many\n" + "".join("    A  1 C%s\n" % "".join(chr(97 + (i // 26 ** k) % 26) for k in range(3)) for i in range(300)) + "    B\n", True))
     out.append(("long-account", txn("A%s  1 USD" % (":x" * 3000), "B"), True))
@@ -999,7 +1005,8 @@ def run(chk):
     small = "2024/01/01 x\n    A  10 EUR\n    B\n\n2024/02/01 y\n    A  1 ACME @ 3 USD\n    B\n"
     pdb_valid = "P 2024/01/01 EUR 1.1 USD\nP 2024/03/01 EUR 1.2 USD\n\nP 2024-02-01 ACME 2,000.5 EUR\nP 2024/01/01 USD 0.9 EUR\n"
     pdbs = prefixes(pdb_valid) + ["P 2024/01/01 AAA 0 BBB\n", "P 2024/01/01 EUR 0 USD\n", "P 2024/01/01 EUR 1 EUR\n", "P 2024/01/01 EUR -1 USD\n",
-                                  "P 2024/01/01 EUR 1.1 USD", "P 2024/01/01 EUR (1 USD)\n", "P 2024/13/01 EUR 1 USD\n", "\r\n\r\nP 2024/01/01 EUR 1.1 USD\r\n",
+                                  "P 2024/01/01 EUR 1.1 USD", "P 2024/01/01 EUR (1 USD)\n", "P 2024/13/01 EUR 1 USD\n", "P 2024/01/99999999999 EUR 1 USD\n",
+                                  "P 99999999999999999999/01/01 EUR 1 USD\n", "P 2024/4294967296/01 EUR 1 USD\n", "\r\n\r\nP 2024/01/01 EUR 1.1 USD\r\n",
                                   "P 2024/01/01 EUR %d USD\n" % MAX96, "P 2024/01/01 EUR 0.0000000000000000000000000001 USD\n", "; comment\n",
                                   "P 2024/01/01 日本 1 円\n", "P  2024/01/01  EUR  1.1  USD\n", "P 2024/01/01 EUR 1.1 USD\n" * 300]
     pdbs += [gen_random_text(rng) for _ in range(150 if quick else 3000)]
